@@ -270,4 +270,4 @@ func c16Gen(tier string, rng *rand.Rand, emit func(string)) map[string]interface
 		"cases": count, "max_n": maxN}
 }
 
-func init() { register("C16", &Prop{Gen: c16Gen, Run: c16Run, CaseTimeout: 30 * time.Second}) }
+func init() { register("C16", &Prop{Gen: c16Gen, Run: c16Run, CaseTimeout: 12 * time.Second}) }
